@@ -27,6 +27,86 @@ ASSUMPTIONS = ["FixedBitSet::set / IntVecMut::set write exactly the addressed sl
 QF = "filters::quotientfilter::QuotientFilter"
 
 
+RING_FIELDS = ("is_occupied", "is_shifted", "is_continuation")
+
+
+def is_ring_len(L, base=("param", 1, "self")):
+    """L is the slot count: the length of one of the three metadata bitsets (all allocated with 1 << bits_quotient bits, R11-alloc-terms)"""
+    return L[0] == "call" and L[1] == "fixedbitset::FixedBitSet::len" and len(L[2]) == 1 and L[2][0][0] == "field" and L[2][0][1] == base and L[2][0][2] in RING_FIELDS
+
+
+def succ_of(t, base=("param", 1, "self")):
+    """p when t is the ring successor of p over the slot count (the term engine's `ring::succ(p, L)`: the value idiom
+    `if p == L - 1 { 0 } else { p + 1 }` in any spelling, written out, in a helper storing through `&mut pos`, or in a free function)"""
+    if t[0] == "call" and t[1] == "ring::succ" and is_ring_len(t[2][1], base):
+        return t[2][0]
+    return None
+
+
+def pred_of(t, base=("param", 1, "self")):
+    if t[0] == "call" and t[1] == "ring::pred" and is_ring_len(t[2][1], base):
+        return t[2][0]
+    return None
+
+
+class ScanView:
+    """scan() reports (present, position, start_of_run) — as the struct ScanResult of the pinned tree or as a tuple of a bool, a
+    usize and an Option<usize> (components are told apart by their types)."""
+
+    def __init__(self, prog):
+        self.ok = False
+        self.idx = None
+        sc = prog.fn(QF + "::scan")
+        if sc is None:
+            return
+        tyj = sc.locals[0].get("tyj") or {}
+        if tyj.get("k") == "adt":
+            self.ok = True
+        elif tyj.get("k") == "tuple" and len(tyj.get("tys", [])) == 3:
+            idx = {}
+            for i, t in enumerate(tyj["tys"]):
+                if t.get("k") == "bool" or t.get("name") == "bool":
+                    idx["present"] = i
+                elif (t.get("k") in ("uint", "int") and t.get("name", "usize") == "usize") or t.get("name") == "usize":
+                    idx["position"] = i
+                elif t.get("k") == "adt" and t.get("def", "").endswith("Option"):
+                    idx["start_of_run"] = i
+            if len(idx) == 3:
+                self.idx, self.ok = idx, True
+
+    def get(self, scan_t, name):
+        return ("field", scan_t, name) if self.idx is None else ("tfield", scan_t, self.idx[name])
+
+    def record(self, a):
+        """{present, position, start_of_run} of one returned value, or None"""
+        if self.idx is None:
+            return dict(a[3]) if a[0] == "adt" else None
+        if a[0] == "tuple" and len(a[1]) == 3:
+            return {n: a[1][i] for n, i in self.idx.items()}
+        return None
+
+    def has_run_forms(self, scan_t):
+        sor = self.get(scan_t, "start_of_run")
+        return [("call", "filters::quotientfilter::ScanResult::has_run", (scan_t,)), ("call", "std::option::Option::is_some", (sor,)),
+                mk("Eq", ("call", "discriminant", (sor,)), const(1))]
+
+    def is_at_start(self, x, scan_t):
+        """x says `the scan ended exactly at the start of an existing run`"""
+        pos0, sor = self.get(scan_t, "position"), self.get(scan_t, "start_of_run")
+        if x == ("call", "filters::quotientfilter::ScanResult::at_start_of_run", (scan_t,)):
+            return True
+        if x[0] == "op" and x[1] == "Eq" and len(x[2]) == 2:
+            a, b = x[2]
+            for u, v in ((a, b), (b, a)):
+                # position == <payload of start_of_run>
+                if u == pos0 and v != pos0 and any(z == sor for z in subterms_(v)):
+                    return True
+                # start_of_run == Some(position)
+                if u == sor and v[0] == "adt" and v[2] == "Some" and len(v[3]) == 1 and v[3][0][1] == pos0:
+                    return True
+        return False
+
+
 def run(ctx):
     prog = ctx.prog
     ii = ctx.anchor(QF + "::insert_internal")
@@ -35,7 +115,11 @@ def run(ctx):
     pe = PathEnumerator(ii, prog, ctx.summ)
     selfp = ("param", 1, "self")
     scan_t = ("call", QF + "::scan", (selfp, ("param", 2, "quotient"), ("param", 3, "remainder"), const(True)))
-    present = ("field", scan_t, "present")
+    sv = ScanView(prog)
+    if not sv.ok:
+        ctx.shape("R13-contract", ii.key, ii, "scan() returns neither the ScanResult record nor a (bool, usize, Option<usize>) tuple")
+        return
+    present = sv.get(scan_t, "present")
     full = mk("Eq", ("call", "fixedbitset::FixedBitSet::len", (("field", selfp, "is_occupied"),)), ("field", selfp, "n_elements"))
     classes = {"present": [], "full": [], "insert": [], "other": []}
     for p in pe.paths():
@@ -75,7 +159,7 @@ def run(ctx):
             probs.append("%d n_elements updates" % len(ne))
         if not any(e["args"][1][:2] == ("param", 2) and e["args"][2] == const(True) for e in occ):
             probs.append("is_occupied[quotient] not set")
-        if not (rem and rem[0]["args"][1] == ("field", scan_t, "position") and rem[0]["args"][2][:2] == ("param", 3)):
+        if not (rem and rem[0]["args"][1] == sv.get(scan_t, "position") and rem[0]["args"][2][:2] == ("param", 3)):
             probs.append("remainder not stored at scan position")
         if ws and ws[0] is not rem[0] if rem else True:
             probs.append("first write is not remainders.set(position, remainder)")
@@ -100,7 +184,7 @@ def run(ctx):
         tb = TermBuilder(qry, prog)
         r = tb.return_term()
         cq = ("call", QF + "::calc_quotient_remainder", (selfp, ("param", 2, qry.local_name(2))))
-        exp = ("field", ("call", QF + "::scan", (selfp, ("tfield", cq, 0), ("tfield", cq, 1), const(False))), "present")
+        exp = sv.get(("call", QF + "::scan", (selfp, ("tfield", cq, 0), ("tfield", cq, 1), const(False))), "present")
         ctx.check(r == exp, "R13-wrappers", qry.key, qry, "query == scan(calc_quotient_remainder(obj), false).present", "query is %s" % fmt(r))
     for nm in ("len", "is_empty"):
         f = ctx.anchor("<%s as filters::Filter[T]>::%s" % (QF, nm))
@@ -122,51 +206,26 @@ def run(ctx):
 # ---- additional structural rules (deepening) ---------------------------------------------------------
 
 def ring_rules(ctx):
-    """R13-ring: incr/decr are the successor/predecessor on the ring of 2^q slots"""
-    from ..paths import PathEnumerator
+    """R13-ring: the ring helpers, where the tree has them as methods storing through `&mut pos`, are the successor/predecessor on
+    the ring of 2^q slots.  Decided on the stored term: the term engine reads `if p == L - 1 { 0 } else { p + 1 }` (any spelling,
+    wrap value under the wrap test) as ring::succ(p, L); a wrong wrap point, a swapped arm or a second store leaves a phi instead.
+    Where the helpers are free functions or written out, the same reading happens at their use sites (scan / swap-chain rules)."""
     prog = ctx.prog
     selfp = ("param", 1, "self")
-    ln = ("call", "fixedbitset::FixedBitSet::len", (("field", selfp, "is_occupied"),))
-    pos = ("param", 2, "pos")
-    specs = {
-        "incr": (mk("Eq", pos, mk("Sub", ln, const(1))), const(0), mk("Add", pos, const(1))),
-        "decr": (mk("Eq", pos, const(0)), mk("Sub", ln, const(1)), mk("Sub", pos, const(1))),
-    }
-    for nm, (guard, wrapv, stepv) in specs.items():
-        f = ctx.anchor(QF + "::" + nm)
+    n = 0
+    for nm, pick, what in (("incr", succ_of, "successor"), ("decr", pred_of, "predecessor")):
+        f = prog.fn(QF + "::" + nm)
         if f is None:
             continue
-        pe = PathEnumerator(f, prog, ctx.summ)
-        probs = []
-        n = 0
-        for p in pe.paths():
-            if p.exit_kind != "return":
-                continue
-            n += 1
-            facts = {repr(c): t for c, t in pe.path_facts(p)}
-            ws = [e for e in p.events if e["kind"] == "write" and e["root"] == ("param", 2) and e["how"] == "store"]
-            g = fv(facts, guard)
-            if len(ws) != 1 or g is None:
-                probs.append("path without exactly one store to *pos under the wrap test")
-                continue
-            # the stored value is a phi resolved on this path: recompute from the path's branch
-            v = ws[0]["value"]
-            alts = set(map(repr, v[1])) if v[0] == "phi" else {repr(v)}
-            if alts != {repr(wrapv), repr(stepv)} and alts != {repr(wrapv if g else stepv)}:
-                probs.append("*pos becomes %s" % fmt(v))
-        # which constant/step is chosen under which fact: check the defining blocks
+        n += 1
+        ctx.analysed_fns.add(f.key)
         tb = TermBuilder(f, prog)
-        from ..guards import atomic_facts
-        for bi, blk in enumerate(f.blocks):
-            for si, st in enumerate(blk.stmts):
-                if st.k == "assign" and st.place.is_local() and f.local_ty(st.place.local) == "usize" and not f.local_name(st.place.local):
-                    t = tb.rvalue(st.rv, bi, si)
-                    fs = {repr(c): tr for c, tr in atomic_facts(f, prog, bi, tb)}
-                    if t == wrapv and fv(fs, guard) is False:
-                        probs.append("wrap value chosen on the non-wrapping branch")
-                    if t == stepv and fv(fs, guard) is True:
-                        probs.append("step value chosen on the wrapping branch")
-        ctx.check(not probs and n == 2, "R13-ring", f.key, f, "%s: %s ? %s : %s" % (nm, fmt(guard), fmt(wrapv), fmt(stepv)), "; ".join(sorted(set(probs))[:2]) or "%d paths" % n)
+        pos = ("param", 2, f.local_name(2))
+        v = tb._apply_scalar_store(f.key, 1, [selfp, pos]) if f.arg_count == 2 else None
+        ctx.check(v is not None and pick(v) == pos, "R13-ring", f.key, f, "%s: *pos becomes the ring %s of *pos over the slot count" % (nm, what),
+                  "%s does not store the ring %s of *pos: %s" % (nm, what, fmt(v)[:160] if v is not None else "no single unconditional store of a join-free term through `pos`"))
+    if n == 0:
+        ctx.ok("R13-ring", QF + ":ring-steps", "no incr/decr methods in this tree: ring steps are read at their use sites", nontrivial=False)
 
 
 def subterms_(t):
@@ -194,7 +253,9 @@ def swap_chain_rules(ctx, ii):
     h = heads[0]
     body = ii.natural_loop(h)
     A = lambda bi, t: [tb.operand(x, bi, len(ii.blocks[bi].stmts)) for x in t.args]
-    incr = [(bi, t) for bi, t in ii.calls() if bi in body and t.callee_name() == "incr"]
+    # the carried position: the loop variable that every iteration replaces by its own ring successor
+    pos_vars = [l for l in range(len(ii.locals)) if ii.local_ty(l) == "usize" and tb.defined_in_loop(l, h)
+                and succ_of(tb.loop_update(l, h)) == ("loopvar", l, h)]
     sets = [(bi, t, A(bi, t)) for bi, t in ii.calls() if bi in body and t.callee_name() == "set"]
     reads = [(bi, t, A(bi, t)) for bi, t in ii.calls() if bi in body and t.callee_name() in ("index", "get")]
     # reads made through a private pure helper (`fn is_used(&self, pos) -> bool { self.is_occupied[pos] || self.is_shifted[pos] }`)
@@ -214,13 +275,12 @@ def swap_chain_rules(ctx, ii):
             from ..terms import _closure_hook
             _closure_hook[0] = tb._apply_closure_hook
     probs = []
-    if len(incr) != 1:
-        probs.append("%d incr calls in the chain loop" % len(incr))
+    sv = ScanView(prog)
+    if len(pos_vars) != 1 or not sv.ok:
+        probs.append("%d loop-carried positions advanced by one ring step per iteration in the chain loop (expected exactly one)" % len(pos_vars))
     else:
-        pos_lv = A(*incr[0])[1]
-        if pos_lv[0] != "loopvar":
-            probs.append("incr is not applied to the carried position")
-        P1 = ("call", QF + "::incr::out2", (selfp, pos_lv))
+        pos_lv = ("loopvar", pos_vars[0], h)
+        P1 = tb.loop_update(pos_vars[0], h)
         by_field = {}
         for bi, t, a in sets:
             fld = a[0][2] if a[0][0] == "field" else None
@@ -289,7 +349,7 @@ def swap_chain_rules(ctx, ii):
     # what the chain starts with: the triple displaced from the insert position itself
     if not probs:
         scan_t0 = ("call", QF + "::scan", (selfp, ("param", 2, "quotient"), ("param", 3, "remainder"), const(True)))
-        pos0 = ("field", scan_t0, "position")
+        pos0 = sv.get(scan_t0, "position")
         wc, wr = _split_carried(by_field["is_continuation"][1][2]), _split_carried(by_field["remainders"][1][2])
         hb = ii.blocks[h]
         gd = _split_carried(tb.operand(hb.term.discr, h, len(hb.stmts)))
@@ -307,9 +367,8 @@ def swap_chain_rules(ctx, ii):
         if not ok_c:
             # at_start_of_run may be inlined: phi{False | position == start_of_run}
             alts = [x for x in (ic[1] if ic[0] == "phi" else (ic,))]
-            sor = ("field", scan_t0, "start_of_run")
             def is_at_start(x):
-                return x[0] == "op" and x[1] == "Eq" and pos0 in x[2] and any(y != pos0 and any(z == sor for z in subterms_(y)) for y in x[2])
+                return sv.is_at_start(x, scan_t0)
             ok_c = const(True) in alts and any(is_at_start(x) for x in alts) and all(x in (const(True), const(False)) or is_at_start(x) for x in alts)
         if not ok_c:
             probs.append("the displaced element is flagged as continuation with %s; expected is_continuation[position] || at_start_of_run() "
@@ -393,16 +452,16 @@ def swap_chain_option_form(ctx, ii, tb, h, carry_lv, pos_lv, P1, by_field):
             probs.append("carried remainder becomes %s, expected the remainder just read" % fmt(pr[1])[:80])
     # what the chain starts with
     scan_t0 = ("call", QF + "::scan", (selfp, ("param", 2, "quotient"), ("param", 3, "remainder"), const(True)))
-    pos0 = ("field", scan_t0, "position")
+    sv = ScanView(prog)
+    pos0 = sv.get(scan_t0, "position")
     p0 = check_alts(tb.loop_init(carry_lv[1], h), None, "before the loop", ("index", ("field", selfp, "is_occupied"), pos0), ("index", ("field", selfp, "is_shifted"), pos0), none_blocks(False))
     if p0 is not None:
         ic, ir = p0
         at_start = ("call", "filters::quotientfilter::ScanResult::at_start_of_run", (scan_t0,))
         alts = set(map(repr, ic[1])) if ic[0] == "phi" else {repr(ic)}
-        sor = ("field", scan_t0, "start_of_run")
 
         def is_at_start(x):
-            return x == at_start or (x[0] == "op" and x[1] == "Eq" and pos0 in x[2] and any(y != pos0 and any(z == sor for z in subterms_(y)) for y in x[2]))
+            return sv.is_at_start(x, scan_t0)
         xs = ic[1] if ic[0] == "phi" else (ic,)
         if not (const(True) in xs and any(is_at_start(x) for x in xs) and all(x in (const(True), const(False)) or is_at_start(x) for x in xs)):
             probs.append("the displaced element is flagged as continuation with %s; expected is_continuation[position] || at_start_of_run()" % fmt(ic)[:160])
@@ -423,7 +482,8 @@ def placement_flag_rules(ctx, ii, tb, body):
     # initial placement flags
     from ..guards import atomic_facts
     scan_t = ("call", QF + "::scan", (selfp, ("param", 2, "quotient"), ("param", 3, "remainder"), const(True)))
-    posn = ("field", scan_t, "position")
+    sv = ScanView(prog)
+    posn = sv.get(scan_t, "position")
     pre = [(bi, t, A(bi, t)) for bi, t in ii.calls() if bi not in body and t.callee_name() == "set"]
     probs = []
     seen = set()
@@ -436,9 +496,7 @@ def placement_flag_rules(ctx, ii, tb, body):
                 probs.append("is_shifted[position] is not set exactly under position != quotient")
         if fld == "is_continuation":
             seen.add(fld)
-            hr = ("call", "filters::quotientfilter::ScanResult::has_run", (scan_t,))
-            hr2 = ("call", "std::option::Option::is_some", (("field", scan_t, "start_of_run"),))
-            if not (a[1] == posn and a[2] == const(True) and (fv(facts, hr) is True or fv(facts, hr2) is True)):
+            if not (a[1] == posn and a[2] == const(True) and any(fv(facts, hr) is True for hr in sv.has_run_forms(scan_t))):
                 probs.append("is_continuation[position] is not set under has_run && !at_start_of_run")
         if fld == "is_occupied":
             seen.add(fld)
@@ -564,7 +622,11 @@ def scan_rules(ctx):
         return [(h, c, pol) for h, c, pol, b in hits]
 
     def lv_updated_by(carried, lv, fnname):
-        return lv[0] == "loopvar" and lv[1] in carried and any(s == out(fnname, lv) or (s[0] == "call" and s[1] == "%s::%s::out2" % (QF, fnname) and s[2][1][0] == "loopvar" and s[2][1][1] == lv[1]) for s in [carried[lv[1]][1]])
+        pick = succ_of if fnname == "incr" else pred_of
+        if not (lv[0] == "loopvar" and lv[1] in carried):
+            return False
+        src = pick(carried[lv[1]][1])
+        return src is not None and src[0] == "loopvar" and src[1] == lv[1]
 
     probs = []
     # E1: cluster start
@@ -576,9 +638,9 @@ def scan_rules(ctx):
     def cursor_advanced_by_incr(ca, x):
         # the tested slot is incr(cursor), or a loop-carried cursor that enters the loop already advanced (incr before the loop)
         # and is advanced again (incr) by every iteration: `incr(c); while test(c) { incr(c) }` == `loop { incr(c); if !test(c) { break } }`
-        if x[0] == "call" and x[1].endswith("incr::out2"):
+        if succ_of(x) is not None:
             return True
-        return x[0] == "loopvar" and x[1] in ca and all(y[0] == "call" and y[1].endswith("incr::out2") for y in ca[x[1]])
+        return x[0] == "loopvar" and x[1] in ca and all(succ_of(y) is not None for y in ca[x[1]])
     e2 = has_exit(lambda h, ca, c, pol: c[0] == "index" and c[1] == ("field", selfp, "is_continuation") and cursor_advanced_by_incr(ca, c[2]) and pol is False)
     if len({h for h, _, _ in e2}) < 2:
         probs.append("expected two loops that advance a slot cursor (incr) until is_continuation is false (run skip, in-run search); found %d" % len({h for h, _, _ in e2}))
@@ -633,11 +695,16 @@ def scan_rules(ctx):
     r = tb.return_term()
     alts = r[1] if r[0] == "phi" else (r,)
     probs = []
-    pres = [a for a in alts if a[0] == "adt" and dict(a[3]).get("present") == const(True)]
-    maybe = [a for a in alts if a[0] == "adt" and dict(a[3]).get("present") not in (const(True), const(False))]
+    sv = ScanView(prog)
+    recs = [sv.record(a) for a in alts] if sv.ok else []
+    if not sv.ok or any(d is None for d in recs):
+        ctx.shape("R13-scan-results", sc.key, sc, "scan() returns %s — neither ScanResult records nor (bool, usize, Option<usize>) tuples" % fmt(r)[:160])
+        return
+    pres = [d for d in recs if d.get("present") == const(True)]
+    maybe = [d for d in recs if d.get("present") not in (const(True), const(False))]
     if not pres and len(maybe) == 1:
         # one record built after the search: present = (stored remainder at the final cursor == remainder)
-        d = dict(maybe[0][3])
+        d = maybe[0]
         pa = d["present"][1] if d["present"][0] == "phi" else (d["present"],)
         posa = d.get("position", ("x",))
         posa = posa[1] if posa[0] == "phi" else (posa,)
@@ -654,7 +721,7 @@ def scan_rules(ctx):
     elif len(pres) != 1:
         probs.append("%d result records with present: true" % len(pres))
     else:
-        d = dict(pres[0][3])
+        d = pres[0]
         # position must be the cursor compared in the equality test
         eqc = [c for h, c, pol in e5eq]
         cursor = [x[2][1] for c in eqc for x in c[2] if is_rem_at_lv(x)]
@@ -662,7 +729,7 @@ def scan_rules(ctx):
             probs.append("present: true reports position %s, not the slot whose remainder matched" % fmt(d.get("position")))
         if d.get("start_of_run", ("x",))[0] != "adt" or d["start_of_run"][2] != "Some":
             probs.append("present: true without a start_of_run")
-    fast = [a for a in alts if a[0] == "adt" and dict(a[3]).get("position") == quot and dict(a[3]).get("present") == const(False)]
+    fast = [d for d in recs if d.get("position") == quot and d.get("present") == const(False)]
     if not fast:
         probs.append("no fast path `run does not exist and not inserting => absent at the canonical slot`")
     ctx.check(not probs, "R13-scan-results", sc.key, sc, "present only at the matching slot with its run start; absent fast path at the canonical slot", "; ".join(probs[:3]))
@@ -670,11 +737,16 @@ def scan_rules(ctx):
     from ..paths import PathEnumerator
     pe = PathEnumerator(sc, prog, ctx.summ, max_back=0, limit=2000)
     okf = False
+    bad_fast = False
+    heads_ = set(sc.loop_heads())
     occ_q = ("index", ("field", selfp, "is_occupied"), quot)
     for p in pe.paths():
         if p.exit_kind != "return":
             continue
         facts = {repr(c): t for c, t in pe.path_facts(p)}
-        if len(p.blocks) <= 6 and fv(facts, occ_q) is False and fv(facts, on_ins) is False:
+        # the fast path is the return that reaches no loop at all
+        if not (set(p.blocks) & heads_) and fv(facts, occ_q) is False and fv(facts, on_ins) is False:
             okf = True
-    ctx.check(okf, "R13-scan-results", sc.key + ":fast-path", sc, "fast path taken exactly under !is_occupied[quotient] && !on_insert", "the query fast path is not guarded by !is_occupied[quotient] && !on_insert")
+        elif not (set(p.blocks) & heads_):
+            bad_fast = True
+    ctx.check(okf and not bad_fast, "R13-scan-results", sc.key + ":fast-path", sc, "fast path taken exactly under !is_occupied[quotient] && !on_insert", "the query fast path is not guarded by !is_occupied[quotient] && !on_insert")
